@@ -79,6 +79,28 @@ func main() {
 			os.Exit(2)
 		}
 		debugErrSites(p)
+	case "check-patch":
+		// hv check-patch <Cxx> <patch.diff>: judge the tree with the patch applied in memory (nothing under /repo is written)
+		if len(os.Args) < 4 {
+			usage()
+		}
+		ov, err := overlayFromPatch(os.Args[3])
+		if err != nil {
+			fmt.Println("SKIPPED:", err)
+			os.Exit(3)
+		}
+		keys, err := runOverlayChild(os.Args[2], ov)
+		if err != nil {
+			fmt.Println("ERROR:", err)
+			os.Exit(2)
+		}
+		for _, k := range keys {
+			fmt.Println("FIRES", k)
+		}
+		if len(keys) > 0 {
+			os.Exit(1)
+		}
+		os.Exit(0)
 	case "check-overlay":
 		if len(os.Args) < 4 {
 			usage()
